@@ -51,8 +51,18 @@ func (e *Engine) verifyFunction(fn *ssa.Function, spec *FuncSpec) *Gen {
 	for _, fv := range fn.FreeVars {
 		v := g.fresh("fv_"+mangleShort(fv.Name()), SLoc)
 		g.closed(st, v, fv.Type())
-		g.assume(st, not(eq(v, nilLoc)))
+		g.assume(st, and(not(eq(v, nilLoc)), eq(app("Int", "kind", v), T("Int", "0"))))
+		// distinct captured variables are distinct memory cells (each its own object)
+		for _, other := range fn.FreeVars {
+			if ov, ok := a.env[other]; ok && other != fv {
+				g.assume(st, not(eq(v, ov.T)))
+			}
+		}
 		a.env[fv] = Val{T: v}
+		if et := fv.Type().(*types.Pointer).Elem(); isScalarType(et) {
+			g.protected = append(g.protected, protectedLoc{loc: v, ty: et})
+			g.trusted["captured scalar variables of a closure under verification keep their value across calls to functions without a contract (they are not reachable from those calls' arguments)"] = true
+		}
 	}
 	// decoder allocation bound
 	if spec.AllocVar != "" {
@@ -73,6 +83,20 @@ func (e *Engine) verifyFunction(fn *ssa.Function, spec *FuncSpec) *Gen {
 		}
 		if g.allocBound == nil {
 			g.unbound = append(g.unbound, fmt.Sprintf("%s: alloc bound %q cannot be bound", a.name, spec.AllocVar))
+		}
+	}
+	// every declared ghost variable exists from the start (so that havocs cover it)
+	for _, gv := range e.specs.ghosts {
+		if pkg := e.byPath[gv.PkgPath]; pkg != nil {
+			if ty, err := resolveTypeIn(g, pkg, gv.Type); err == nil {
+				srt := g.sortOf(types.Typ[types.Bool])
+				if st0, ok := ty.(*specType); ok {
+					srt = st0.sort
+				} else {
+					srt = g.sortOf(ty)
+				}
+				g.ghost(st, gv, srt)
+			}
 		}
 	}
 	a.entry = st.clone() // provisional (for lets / requires with old-free evaluation)
@@ -123,10 +147,28 @@ func (e *Engine) verifyFunction(fn *ssa.Function, spec *FuncSpec) *Gen {
 	// postconditions at every return
 	resNames := resultNames(fn.Signature)
 	for _, r := range a.rets {
-		ctx := a.specCtx(r.st, "ensures", false)
+		// locals are visible in postconditions with their values at the return
+		ctx := a.specCtx(r.st, "ensures", true)
 		for i, n := range resNames {
 			if i < len(r.vals) {
-				ctx.vars[n] = SVal{T: a.asTerm(r.st, r.vals[i], fn.Signature.Results().At(i).Type()), Ty: fn.Signature.Results().At(i).Type()}
+				sv := SVal{T: a.asTerm(r.st, r.vals[i], fn.Signature.Results().At(i).Type()), Ty: fn.Signature.Results().At(i).Type()}
+				// "ret", "ret1", ... always name the results; the conventional names
+				// (result, result1 or the declared names) unless a captured variable or
+				// parameter of the same name exists
+				alias := "ret"
+				if i > 0 {
+					alias = fmt.Sprintf("ret%d", i)
+				}
+				ctx.vars[alias] = sv
+				clash := false
+				for _, fv := range fn.FreeVars {
+					if fv.Name() == n {
+						clash = true
+					}
+				}
+				if !clash {
+					ctx.vars[n] = sv
+				}
 			}
 		}
 		// ghost effects declared by the contract are obligations on the body too: ghost' == expr
@@ -243,3 +285,8 @@ func (e *Engine) verifyLemma(lm *Lemma) *Gen {
 }
 
 var _ = types.Typ
+
+func isScalarType(t types.Type) bool {
+	b, ok := t.Underlying().(*types.Basic)
+	return ok && b.Info()&(types.IsInteger|types.IsBoolean) != 0
+}
